@@ -489,6 +489,10 @@ impl Ctx {
             "so_history" => crate::exec_ocf::so_history(self, o),
             "damage_scan" => crate::scan::damage_scan(o),
             "sink_scan" => crate::sinkscan::sink_scan(self, o),
+            "fuzz_decode" => crate::fuzzdec::fuzz_decode(self, o),
+            "fuzz_container" => crate::fuzzdec::fuzz_container(o),
+            "fuzz_codec" => crate::fuzzdec::fuzz_codec(o),
+            "fuzz_single_object" => crate::fuzzdec::fuzz_single_object(self, o),
             "so_read" => {
                 let s = self.schema(gs(o, "sid")?)?;
                 let data = unhex(gs(o, "bytes")?)?;
